@@ -63,8 +63,12 @@ def run(model, col, tier):
     bb = model.cls(IR, "BasicBlock")
     for meth in ("AddInstruction", "AddInstructionBefore", "AddInstructionAfter"):
         m = bb.own_method(meth)
-        t = unparse(m)
-        col.check("RegisterValue(instruction)" in t and "instruction.SetParent(self)" in t, "R14.1", f"{IR}::BasicBlock.{meth} registers", "the instruction is registered with the function and parented to the block",
+        from ..sem import expand_helpers as _xh
+
+        mx = _xh(model, bb, m)
+        ip_ = m.args.args[1].arg
+        t = unparse(mx)
+        col.check(f"RegisterValue({ip_})" in t and f"{ip_}.SetParent(self)" in t, "R14.1", f"{IR}::BasicBlock.{meth} registers", "the instruction is registered with the function and parented to the block",
                   "an added instruction is not registered (no reference) or not parented", IR, m)
     ai = bb.own_method("AddInstruction")
     col.check("self.__instructions.append(instruction)" in unparse(ai) and "return instruction" in unparse(ai), "R14.1", f"{IR}::BasicBlock.AddInstruction appends", "appended at the end; returns the instruction", None, IR, ai)
@@ -215,5 +219,4 @@ def run(model, col, tier):
         if ob.rule in ("R16.1", "R16.2", "R16.3", "R16.4"):
             ob.rule = "R14.6"
             col.obligations.append(ob)
-    lk = model.cls(IR, "Linker").own_method("AddModule")
-    col.check("self.__functions[k] = v" in unparse(lk), "R14.6", f"{IR}::Linker.AddModule merges functions by name", "the linked program maps IR names to functions", None, IR, lk)
+    # (that AddModule enters every function of a module under its IR name is R16.3 `AddModule merges module.Functions`, shared above)
